@@ -14,7 +14,12 @@
      live c k now    k is stored and not (0 < expiration < now)
      stores c c' k it  c' is c with k bound to it, every other key and the configuration unchanged
      eff c d         the effective duration: the default expTime when d = 0, else d
-     exp_of c d now  the expiration add computes: now + eff if eff > 0, -1 if eff < 0, 0 if eff = 0
+     exp_of c d now  the expiration add computes: wrap64 (now + eff) if eff > 0 (int64 arithmetic:
+                     = now + eff when that is <= MaxInt64, = now + eff - 2^64 < 0 otherwise),
+                     -1 if eff < 0, 0 if eff = 0
+     max_i64         MaxInt64 = 2^63 - 1
+     in_range ops    every instant of the history is in [0, MaxInt64] and every duration
+                     argument is <= MaxInt64 (they are int64 values; UnixNano is positive)
      run c ops       fold of [step] over a history  ops : list (operation * instant)
      nondecr t ts    t <= ts[0] <= ts[1] <= …   (the clock never goes back) *)
 
@@ -45,24 +50,31 @@ Section Props.
   (* Refinement, over all histories and all configurations: the results the
      cache returns (values, error yes/no, counts, listed entries, IsExpired)
      and its abstract state are those of the reference machine
-     [spec_step] of C08_Model.v — a key ↦ (value, optional deadline) map.
-     Instants are non-negative (UnixNano). *)
+     [spec_step] of C08_Model.v — a key ↦ (value, optional deadline) map in
+     which an entry stored at [now] for a positive duration d gets the deadline
+     now + d (mathematical sum) if that is a representable instant and no
+     deadline if it is not.  Instants and durations are int64 values
+     ([in_range]); the default expiry too.  The int64 wrap-around of the Go
+     code (now + d > MaxInt64 stores a negative number) is on the model's side
+     of this equation, not in the specification. *)
   Theorem C08_refines_spec : forall e ci (ops : list (op V * Z)),
-    Forall (fun on => 0 <= snd on) ops ->
+    e <= max_i64 -> in_range V ops ->
     spec_run V rejects (spec_new e ci) ops =
     (abs (fst (run (new e ci) ops)), map project (snd (run (new e ci) ops))).
   Proof. exact (refines_spec V rejects). Qed.
 
   (* Invariants of every reachable state: one entry per key; no rejected value
-     is ever stored; the stored expiration is -1, 0 (only with a zero default)
-     or a positive deadline. *)
+     is ever stored; the stored expiration is -1, 0 (only with a zero default),
+     a positive deadline, or — when now + d overflowed int64 — some number
+     <= -2 (which every test `expiration > 0` treats like -1). *)
   Theorem C08_reachable_invariants : forall (ops : list (op V * Z)) e ci,
     let c := fst (run (new e ci) ops) in
     wf c /\
     (forall k it, stored c k it -> rejects (object it) = false) /\
-    (Forall (fun on => 0 <= snd on) ops ->
+    (e <= max_i64 -> in_range V ops ->
      forall k it, stored c k it ->
-       expiration it = -1 \/ (expiration it = 0 /\ expTime c = 0) \/ 0 < expiration it).
+       expiration it = -1 \/ (expiration it = 0 /\ expTime c = 0) \/ 0 < expiration it \/
+       expiration it <= -2).
   Proof. exact (reachable_invariants V rejects). Qed.
 
   (* ------------------------------------------------------------------ *)
@@ -218,23 +230,54 @@ Section Props.
     get c2 k now = (Some (mkItem v (exp_of c d t0)), None).
   Proof. exact (live_until_deadline V rejects). Qed.
 
-  (* the two readings of it that the property text names *)
+  (* the same without any assumption on the clock: no instant of the history,
+     nor the instant of the Get, is past a positive stored deadline *)
+  Theorem C08_live_while_unexpired : forall c k v d t0 c1 (ops : list (op V * Z)) now,
+    wf c -> stored_by V rejects c k v d t0 c1 ->
+    Forall (fun on => overwrites V k (fst on) = false) ops ->
+    (0 < exp_of c d t0 -> Forall (fun t => t <= exp_of c d t0) (map snd ops ++ [now])) ->
+    let c2 := fst (run c1 ops) in
+    stored c2 k (mkItem v (exp_of c d t0)) /\
+    get c2 k now = (Some (mkItem v (exp_of c d t0)), None).
+  Proof. exact (live_while_unexpired V rejects). Qed.
+
+  (* the readings of it that the property text names.  (1) positive duration,
+     representable deadline t0 + eff: live at every instant up to it. *)
   Corollary C08_live_before_deadline : forall c k v d t0 c1 (ops : list (op V * Z)) now,
     wf c -> stored_by V rejects c k v d t0 c1 ->
     Forall (fun on => overwrites V k (fst on) = false) ops ->
     nondecr t0 (map snd ops ++ [now]) ->
-    0 < eff V c d -> now <= t0 + eff V c d ->
+    0 <= t0 -> 0 < eff V c d -> t0 + eff V c d <= max_i64 -> now <= t0 + eff V c d ->
     get (fst (run c1 ops)) k now = (Some (mkItem v (t0 + eff V c d)), None).
   Proof. exact (live_before_deadline V rejects). Qed.
 
+  (* (2) no expiry (NoExpiration, any negative duration, a default of zero or
+     less): never expires and is never removed by DeleteExpired or the janitor —
+     through every history that does not Update/Delete the key or Flush, at
+     ARBITRARY instants (no assumption on the clock), ticks included. *)
   Corollary C08_no_expiry_never_expires : forall c k v d t0 c1 (ops : list (op V * Z)) now,
     wf c -> stored_by V rejects c k v d t0 c1 ->
     Forall (fun on => overwrites V k (fst on) = false) ops ->
-    nondecr t0 (map snd ops ++ [now]) ->
     eff V c d <= 0 ->
     let c2 := fst (run c1 ops) in
-    exists x, (x = -1 \/ x = 0) /\ stored c2 k (mkItem v x) /\ get c2 k now = (Some (mkItem v x), None).
+    exists x, (x = -1 \/ x = 0) /\ stored c2 k (mkItem v x) /\
+              get c2 k now = (Some (mkItem v x), None) /\ is_expired c2 k now = false.
   Proof. exact (no_expiry_never_expires V rejects). Qed.
+
+  (* (3) positive duration whose deadline t0 + eff lies beyond the last int64
+     instant (Set(k, v, MaxInt64); a default expiry near MaxInt64): Go stores
+     the wrapped sum t0 + eff - 2^64, a negative number; the entry is live at
+     every instant — every representable instant IS before its deadline — and
+     is never removed by DeleteExpired or the janitor. *)
+  Corollary C08_deadline_overflow_never_expires : forall c k v d t0 c1 (ops : list (op V * Z)) now,
+    wf c -> stored_by V rejects c k v d t0 c1 ->
+    Forall (fun on => overwrites V k (fst on) = false) ops ->
+    0 <= t0 <= max_i64 -> 0 < eff V c d <= max_i64 -> max_i64 < t0 + eff V c d ->
+    let c2 := fst (run c1 ops) in
+    exists x, x = t0 + eff V c d - 18446744073709551616 /\ x <= -2 /\
+              stored c2 k (mkItem v x) /\
+              get c2 k now = (Some (mkItem v x), None) /\ is_expired c2 k now = false.
+  Proof. exact (deadline_overflow_never_expires V rejects). Qed.
 
   (* Expired at every instant after the deadline, whatever happened in between
      (any clock, janitor or not, purged or not), as long as nothing stores under
@@ -242,10 +285,23 @@ Section Props.
   Theorem C08_expired_after_deadline : forall c k v d t0 c1 (ops : list (op V * Z)) now,
     wf c -> stored_by V rejects c k v d t0 c1 ->
     Forall (fun on => touches V k (fst on) = false) ops ->
-    0 <= t0 -> 0 < eff V c d -> t0 + eff V c d < now ->
+    0 <= t0 -> 0 < eff V c d -> t0 + eff V c d <= max_i64 -> t0 + eff V c d < now ->
     let c2 := fst (run c1 ops) in
     (exists e, get c2 k now = (None, Some e)) /\ live c2 k now = false.
   Proof. exact (expired_after_deadline V rejects). Qed.
+
+  (* IsExpired over histories: after any history that does not store under the
+     key again — DeleteExpired and janitor ticks at any instants included —
+     IsExpired is true exactly when the entry is still stored and the instant
+     is past its positive stored deadline.  (For the entries of (2) and (3)
+     above exp_of <= 0: never true.) *)
+  Theorem C08_is_expired_over_histories : forall c k v d t0 c1 (ops : list (op V * Z)) now,
+    wf c -> stored_by V rejects c k v d t0 c1 ->
+    Forall (fun on => touches V k (fst on) = false) ops ->
+    let c2 := fst (run c1 ops) in
+    is_expired c2 k now = true <->
+    stored c2 k (mkItem v (exp_of c d t0)) /\ 0 < exp_of c d t0 < now.
+  Proof. exact (is_expired_history V rejects). Qed.
 
   (* ------------------------------------------------------------------ *)
   (* Background cleanup (the janitor = OTick at arbitrary instants)       *)
@@ -277,9 +333,32 @@ Section Props.
     wf c -> stored_by V rejects c k v d t0 c1 ->
     Forall (fun on => touches V k (fst on) = false) ops1 ->
     Forall (fun on => touches V k (fst on) = false) ops2 ->
-    0 <= t0 -> 0 < eff V c d -> t0 + eff V c d < tau -> 0 < cleanupInt c ->
+    0 <= t0 -> 0 < eff V c d -> t0 + eff V c d <= max_i64 -> t0 + eff V c d < tau -> 0 < cleanupInt c ->
     al_get k (items (fst (run c1 (ops1 ++ (OTick, tau) :: ops2)))) = None.
   Proof. exact (gone_after_tick_past_deadline V rejects). Qed.
+
+  (* "within about one interval", made precise under an explicit hypothesis
+     about the Go runtime: IF the ticker fires at least every g nanoseconds
+     ([regular g t ticks]: first tick at most g after an instant t that is not
+     past the deadline — the store, or the previous tick —, consecutive ticks
+     at most g apart; for a healthy runtime g = cleanupInt + scheduling delay)
+     and the history goes on long enough to contain a tick past the deadline,
+     THEN the tick that removes the entry comes at most g after the deadline,
+     and the entry is absent from every later state.  The hypothesis itself is
+     not proved (it is runtime behaviour); the janitor stream of the harness
+     measures it: gone by deadline + 2*cleanupInt + 20 ms. *)
+  Theorem C08_gone_within_g_of_regular_ticker :
+    forall c k v d t0 c1 (ops : list (op V * Z)) g t,
+    wf c -> stored_by V rejects c k v d t0 c1 ->
+    Forall (fun on => touches V k (fst on) = false) ops ->
+    0 <= t0 -> 0 < eff V c d -> t0 + eff V c d <= max_i64 -> 0 < cleanupInt c ->
+    regular g t (tick_instants V ops) -> t <= t0 + eff V c d ->
+    (exists x, In x (tick_instants V ops) /\ t0 + eff V c d < x) ->
+    exists ops1 tau ops2,
+      ops = ops1 ++ (OTick, tau) :: ops2 /\
+      t0 + eff V c d < tau <= t0 + eff V c d + g /\
+      forall n, al_get k (items (fst (run c1 (ops1 ++ (OTick, tau) :: firstn n ops2)))) = None.
+  Proof. exact (gone_within_g_of_regular_ticker V rejects). Qed.
 
   (* The janitor is unobservable except through Count/List/IsExpired/Delete:
      over a non-decreasing clock, erasing every tick from a history changes no
@@ -312,12 +391,16 @@ Print Assumptions C08_delete_expired_lookup.
 Print Assumptions C08_count_list_agree.
 Print Assumptions C08_is_expired_iff.
 Print Assumptions C08_live_until_deadline.
+Print Assumptions C08_live_while_unexpired.
 Print Assumptions C08_live_before_deadline.
 Print Assumptions C08_no_expiry_never_expires.
+Print Assumptions C08_deadline_overflow_never_expires.
 Print Assumptions C08_expired_after_deadline.
+Print Assumptions C08_is_expired_over_histories.
 Print Assumptions C08_tick_exact.
 Print Assumptions C08_tick_keeps_unexpired.
 Print Assumptions C08_gone_after_tick_past_deadline_partial.
+Print Assumptions C08_gone_within_g_of_regular_ticker.
 Print Assumptions C08_janitor_unobservable.
 
 (* ---------------------------------------------------------------------- *)
@@ -365,6 +448,56 @@ Example C08_ex_no_expiry :
   get (fst (run Z rej0 c1 ops)) 1 3000000 = (Some (mkItem 7 0), None).
 Proof.
   vm_compute. repeat split; try reflexivity; auto; try lia; try discriminate.
+Qed.
+
+(* C08_deadline_overflow_never_expires on a concrete history at a realistic
+   instant (1.79e18 ns = September 2026): Set(k1, 7, MaxInt64) stores the
+   wrapped sum -7432815257101454462-ish; ticks and DeleteExpired at the last
+   representable instant leave it; the same through the default expiry *)
+Example C08_ex_overflow :
+  let t0 := 1790556779753281366 in
+  let c0 := new (V:=Z) 0 5 in
+  let c1 := fst (set Z rej0 c0 1 7 max_i64 t0) in
+  stored_by Z rej0 c0 1 7 max_i64 t0 c1 /\
+  0 <= t0 <= max_i64 /\ 0 < eff Z c0 max_i64 <= max_i64 /\ max_i64 < t0 + eff Z c0 max_i64 /\
+  exp_of c0 max_i64 t0 = -7432815257101494443 /\
+  let ops := [(OTick, t0 + 5); (ODeleteExpired, max_i64); (OTick, max_i64); (OSet Z 1 8 (-1), max_i64)] in
+  Forall (fun on => overwrites Z 1 (fst on) = false) ops /\ in_range Z ops /\
+  get (fst (run Z rej0 c1 ops)) 1 max_i64 = (Some (mkItem 7 (-7432815257101494443)), None) /\
+  (* default expiry MaxInt64, SetDefault *)
+  get (fst (run Z rej0 (new max_i64 5) ((OSetDefault Z 1 7, t0) :: ops))) 1 max_i64
+  = (Some (mkItem 7 (-7432815257101494443)), None).
+Proof.
+  cbv zeta. split; [|split; [|split; [|split; [|split; [|split; [|split; [|split]]]]]]].
+  - split; [reflexivity|]. left. split; reflexivity.
+  - unfold max_i64. lia.
+  - unfold max_i64, eff. cbn. lia.
+  - unfold max_i64, eff. cbn. lia.
+  - vm_compute. reflexivity.
+  - repeat constructor.
+  - unfold in_range, max_i64. repeat (apply Forall_cons; [cbn; unfold DefaultExpiration; lia|]). apply Forall_nil.
+  - vm_compute. reflexivity.
+  - vm_compute. reflexivity.
+Qed.
+
+(* C08_gone_within_g_of_regular_ticker on a concrete history: cleanup every 5,
+   the ticker fires at 104, 109, 115 (gaps <= g = 6); Set k1 for 10 at 100
+   (deadline 110); the tick at 115 <= 110 + 6 removes it *)
+Example C08_ex_regular_ticker :
+  let c0 := new (V:=Z) 0 5 in
+  let c1 := fst (set Z rej0 c0 1 7 10 100) in
+  let ops := [(OTick, 104); (OGet 1, 105); (OTick, 109); (OGet 1, 111); (OTick, 115); (OCount, 116)] in
+  stored_by Z rej0 c0 1 7 10 100 c1 /\
+  Forall (fun on => touches Z 1 (fst on) = false) ops /\
+  tick_instants Z ops = [104; 109; 115] /\
+  regular 6 100 (tick_instants Z ops) /\
+  (exists x, In x (tick_instants Z ops) /\ 100 + eff Z c0 10 < x) /\
+  snd (run Z rej0 c1 ops) =
+    [RUnit; RGet (Some (mkItem 7 110), None); RUnit; RGet (None, Some E_EXPIRED); RUnit; RCount 0].
+Proof.
+  vm_compute. repeat split; try reflexivity; auto; try lia; try discriminate.
+  - repeat constructor.
+  - exists 115. split; [right; right; left; reflexivity|reflexivity].
 Qed.
 
 (* ---------------------------------------------------------------------- *)
